@@ -11,6 +11,9 @@ AD, scan, checkpoint and vmap are correct, (a)+(b) are also sufficient.  Decided
  3. gradient routing of trainables: every index row of make_trainable holds members of its own group only, rows of different
     parameters are disjoint, all indices are in range, and every promise made to XLA about the scatter indices
     (unique_indices / indices_are_sorted) is true - checked on the real get_all_parameters / get_all_states
+ 5. no select (jnp.where) whose condition is an equality between traced reals - i.e. a branch taken on a null set - has, there, a
+    derivative different from the other branch (value right, gradient silently wrong): obligations generated from the real
+    kernels (strict mode) and from the real Module.step on symbolic tables, derivative by symbolic differentiation of the terms
  4. AD transparency: no stop_gradient / custom_jvp / custom_vjp / callback / host round trip in the functions on the path
 Agreement with finite differences is NOT checked (a numerical experiment, another family of technique).
 """
@@ -125,12 +128,86 @@ def _routing(tier):
     return out
 
 
+def piecewise_worker(arg):
+    """5. No select on the differentiable path of a whole Module.step is taken on a null set with a derivative different from its
+    surroundings (jnp.where(x == 0, 0, x / a): the value is right everywhere, the derivative at x == 0 is that of the constant).
+    The real Module.step runs on symbolic tables of a small network with channels, two synapse types and a current stimulus;
+    every select whose condition is an equality between real terms is collected by the runtime and gets one obligation."""
+    tier, canary = arg
+    from . import common
+    from .. import discharge as D
+    from ..modsym import SymModule
+    from ..sym import Ctx, Sym, SymArray
+    from . import C09
+    out = {"results": [], "error": "", "reached": {}}
+    undo = common.apply_canary(*canary) if canary else None
+    try:
+        nsel = 0
+        for w in ([(0, 3, "I"), (4, 1, "R"), (2, 4, "I")], [(1, 4, "T")]):
+            net = C09.build(w)
+            for solver in ("bwd_euler", "crank_nicolson"):
+                Ctx.reset()
+                sm = SymModule(net)
+                sm.prepare()
+                I = SymArray(np.asarray([Sym(z3.Real("I0")), Sym(z3.Real("I1"))], dtype=object))
+                sm.step(externals={"i": I}, external_inds={"i": np.asarray([0, 4])}, solver=solver)
+                out["reached"].update(sm.rt.reached)
+                hy = [s.e > 0 for k in ("radius", "length", "capacitance") for s in sm.params[k]] + D.PI_FACTS
+                tag = f"{solver};edges=" + ".".join(f"{p}>{q}{t}" for p, q, t in w)
+                sel = list(Ctx.null_selects)
+                nsel += len(sel)
+                refuted = False
+                for name, h, g in D.null_select_obligations(f"Module.step[{tag}]", hy, sel):
+                    r = D.prove(name, h, g, timeout_ms=10000, rounds=1, use_cvc5=False)
+                    out["results"].append(r.to_json())
+                    if r.status == "refuted":
+                        refuted = True
+                        break               # one refuted derivative is the violation; the remaining variables add nothing
+                if refuted and canary:
+                    return out
+                out["results"].append(_res(f"Module.step[{tag}]:selects taken on a null set collected ({len(sel)}) and each discharged", True, backend="structural"))
+    except Exception as e:
+        out["error"] = f"{type(e).__name__}: {e}\n{traceback.format_exc(limit=8)}"
+    finally:
+        if undo:
+            undo()
+    return out
+
+
+CANARIES_P = [
+    ("jaxley.utils.cell_utils:convert_point_process_to_distributed", "src", "current /= area", "current = jnp.where(current == 0.0, 0.0, current / area)"),
+]
 CANARIES_K = [
     ("jaxley.channels.hh:_vtrap", ("jaxley.channels.hh:_vtrap", "src", "x_safe / (save_exp(x_safe / y) - 1.0)", "x / (save_exp(x / y) - 1.0)")),
 ]
 CANARIES_R = [
     ("jaxley.modules.base:Module.get_all_parameters", "src", "params[key] = params[key].at[inds].set(set_param[:, None])", "params[key] = params[key].at[inds].set(set_param[:, None], unique_indices=True)"),
 ]
+
+
+def replay_null_select(r):
+    """native replay: d/dI of the voltage after one step of a stimulated compartment at I = 0 (a data stimulus), jax.grad against a
+    central finite difference"""
+    try:
+        import jax
+        jax.config.update("jax_enable_x64", True)
+        import jax.numpy as jnp
+        import jaxley as jx
+        from jaxley.channels import Leak
+        comp = jx.Compartment()
+        comp.insert(Leak())
+        comp.record("v", verbose=False)
+
+        def f(a):
+            ds = comp.data_stimulate(a * jnp.ones((1, 3)), None)
+            return jnp.sum(jx.integrate(comp, delta_t=0.025, data_stimuli=ds)[0])
+        g = float(jax.grad(f)(0.0))
+        h = 1e-4
+        fd = float((f(h) - f(-h)) / (2 * h))
+        return {"input": "stimulus amplitude 0.0 nA on a Leak compartment, 3 steps", "jax_grad": g, "central_difference": fd,
+                "reproduced": bool(abs(g - fd) > 1e-6 * max(1.0, abs(fd)))}
+    except Exception as e:
+        return {"reproduced": False, "reason": f"{type(e).__name__}: {str(e)[:120]}"}
 
 
 def main(tier):
@@ -141,14 +218,19 @@ def main(tier):
     # 3. routing, 4. transparency
     outs = run_units("jxverif.props.C05", "routing_worker", [(tier, None)] + [("quick", c) for c in CANARIES_R])
     outs_t = run_units("jxverif.props.C05", "transparency_worker", [tier])
-    for o in outs[:1] + outs_t:
+    outs_p = run_units("jxverif.props.C05", "piecewise_worker", [(tier, None)] + [("quick", c) for c in CANARIES_P])
+    for can, oc in zip(CANARIES_P, outs_p[1:]):
+        ref = oc[0] == "ok" and not oc[1]["error"] and any(r["status"] != "proved" for r in oc[1]["results"])
+        ck.canary(f"{can[0]}: {can[2][:50]!r} -> {can[3][:60]!r}", ref, oc)
+    for o in outs[:1] + outs_t + outs_p[:1]:
         if o[0] != "ok" or o[1]["error"]:
             ck.error(str(o[1] if o[0] != "ok" else o[1]["error"])[:900])
             continue
         for r in o[1]["results"]:
             ck.add(r)
             if r["status"] == "refuted":
-                ck.violation(r["name"], {"solver": r["backend"], "solver_output": r["detail"], "kind": "c05"}, reproduced=False)
+                rp = replay_null_select(r) if "taken on a null set" in r["name"] else {"reproduced": False}
+                ck.violation(r["name"], {"solver": r["backend"], "solver_output": r["detail"], "model": r.get("model", {}), "kind": "c05", "replay": rp}, reproduced=rp.get("reproduced", False))
         if o[1].get("promises"):
             ck.extra["scatter_promises_in_source"] = o[1]["promises"]
         ck.extra.setdefault("code_reached", {}).update({k: v for k, v in o[1].get("reached", {}).items() if k.startswith("jaxley")})
